@@ -20,6 +20,28 @@ def Val.pow (a b : Val) : Except Err Val :=
   | .int (.ofNat n) => D.powV a n
   | _ => .error "unsupported-exponent"
 
+/-- Python `%` and `//` on ints (floor semantics; ZeroDivisionError) -/
+def Val.modV (a b : Val) : Except Err Val :=
+  match a.toInt?, b.toInt? with
+  | some x, some y => if y = 0 then .error "ZeroDivisionError" else .ok (.int (Int.fmod x y))
+  | _, _ => .error "TypeError"
+
+def Val.floordivV (a b : Val) : Except Err Val :=
+  match a.toInt?, b.toInt? with
+  | some x, some y => if y = 0 then .error "ZeroDivisionError" else .ok (.int (Int.fdiv x y))
+  | _, _ => .error "TypeError"
+
+def Val.rangeV (a : Val) : Except Err (List Val) :=
+  match a with
+  | .int n => .ok ((List.range n.toNat).map (fun i => Val.int (i : Nat)))
+  | _ => .error "TypeError"
+
+def Val.toNatV (a : Val) : Except Err Nat :=
+  match a with
+  | .int (.ofNat n) => .ok n
+  | .int _ => .error "IndexError"
+  | _ => .error "TypeError"
+
 def Val.sumV (v : Val) : Except Err Val := do
   let l ← v.elemsE
   D.pySum l
@@ -42,6 +64,10 @@ instance : PyAlg Val where
   mul := Val.mul
   div := Val.div
   pow := Val.pow
+  mod := Val.modV
+  floordiv := Val.floordivV
+  range := Val.rangeV
+  toNat := Val.toNatV
   lt := Val.lt
   le := Val.le
   len := Val.lenV
